@@ -850,6 +850,10 @@ theorem plan_timers_nil (c : Cfg) (h : (plan c).started = []) : (plan c).timers 
   | nil => rfl
   | cons a as ih => simp [ih]
 
+/-- `len(x) > 0` is `bool(x)` -/
+@[simp] theorem decide_len_pos {α : Type} (l : List α) : decide (((l.length : Nat) : Int) > 0) = !l.isEmpty := by
+  cases l <;> simp
+
 theorem run_more (c : Cfg) (r : Result) (h : runForever c = some r) (hb : c.cause.before = false) :
     r.startOk = ((plan c).phase != .startFailed && (plan c).phase != .afterStart) ∧
     r.error = some (if (plan c).isError then .failure else .cancelled) ∧
